@@ -448,3 +448,18 @@ Check drain_empties :
   forall n thr m l, Forall (fun a => a < m) l -> (length l <= n)%nat -> drain_n n thr m l = [].
 Print Assumptions drain_empties.
 
+(* (iii) at every instant (what the oracle checks after every step): held <= counter <= held + threads in the middle of an
+   acquire or a release *)
+Theorem counters_bounded_always :
+  forall level b progs sched,
+    let st := run true sched (initb level b progs) in
+    count_kind KR (live st) <= ar (sh st) <= count_kind KR (live st) + nlen (filter busy (ths st)) /\
+    count_kind KW (live st) <= aw (sh st) <= count_kind KW (live st) + nlen (filter busy (ths st)).
+Proof. exact counters_bounded_always_proof. Qed.
+Check counters_bounded_always :
+  forall level b progs sched,
+    let st := run true sched (initb level b progs) in
+    count_kind KR (live st) <= ar (sh st) <= count_kind KR (live st) + nlen (filter busy (ths st)) /\
+    count_kind KW (live st) <= aw (sh st) <= count_kind KW (live st) + nlen (filter busy (ths st)).
+Print Assumptions counters_bounded_always.
+
